@@ -7,7 +7,8 @@ from .. import gen
 from . import kinds as K
 
 POSITIONS = ["prop", "item", "union1", "union2", "addl", "allof", "query", "header", "cookie", "path",
-             "json", "form", "multipart", "octet", "resp"]
+             "json", "form", "multipart", "octet", "resp",
+             "item-query", "item-header", "item-cookie"]      # declared at path-item level, shared by two operations with no parameter of their own
 MEDIA = {"json": "application/json", "form": "application/x-www-form-urlencoded", "multipart": "multipart/form-data",
          "octet": "application/octet-stream"}
 OK = {"200": {"description": "ok"}}
@@ -41,6 +42,10 @@ def place(kind, pos, required=True, version="3.1.0", prop_name="p", op_id="theOp
         path = "/x/{" + prop_name + "}" if pos == "path" else "/x"
         paths[path] = {"get": {"operationId": op_id, "parameters": [
             {"name": prop_name, "in": pos, "required": bool(required or pos == "path"), "schema": sch}], "responses": copy.deepcopy(OK)}}
+    elif pos.startswith("item-"):
+        paths["/x"] = {"parameters": [{"name": prop_name, "in": pos[5:], "required": bool(required), "schema": sch}],
+                       "get": {"operationId": op_id, "responses": copy.deepcopy(OK)},
+                       "delete": {"operationId": op_id + "Del", "responses": {"204": {"description": "n"}}}}
     elif pos in MEDIA:
         body_schema = sch if pos in ("json", "octet") else model(sch)
         paths["/x"] = {"post": {"operationId": op_id, "requestBody": {"required": True, "content": {MEDIA[pos]: {"schema": body_schema}}},
